@@ -30,7 +30,7 @@ PROPS = {
         "TestC10", "exploration",
         "cases = (start-ordered cue list, period f, spare slice capacity); exhaustive: every start-ordered list of <=3 cues on the 0..9 ms grid "
         "(thorough: also 4 cues on 0..6) with two texts x f in 1..5 ms x capacity in {len, len+3}; random: rapid lists of 0..10 cues at ms/ns granularity with at most 5000 pieces. "
-        "Non-trivial = some cue is cut AND (cues overlap/nest OR the last-listed cue is not the one ending last); distinct = hash of the case.",
+        "Some cues reference a style / region that is another object than the one the list declares under the same identifier. Non-trivial = some cue is cut AND (cues overlap/nest OR the last-listed cue is not the one ending last); distinct = hash of the case.",
         ["the per-cue cutting specification in c10_test.go transcribes property C10; lists are start-ordered and f>0 as the property requires"],
         shards=(8, 16), cli=True, technique="property-based testing against an executable per-cue cutting specification (exhaustive grids + rapid), multiset/ordering/identity oracle; the sub-command of the CLI binary vs. the same step through the library (subprocess, byte-identical output or common failure)",
         text="The grids named in the property are enumerated completely (3 cues on 0..9 in both tiers, 4 cues on 0..6 in thorough) with both slice-capacity variants, and random larger lists follow; every output is compared with the specification as a multiset, for order, for the no-interior-multiple invariant and for content/identity of every piece.",
@@ -40,7 +40,7 @@ PROPS = {
         "TestC11", "exploration",
         "cases = cue list in any order (1..3 distinct texts incl. a two-line text) for the specification; (start-ordered list free of touching same-text cues, period f) for the inverse law. "
         "Exhaustive: every list of <=3 cues on the 0..4 ms grid (thorough: <=4 cues on 0..3) x 3 texts; random: rapid lists of 0..9 cues. "
-        "Non-trivial = a merge happens together with >=2 texts or unordered input (specification), or some cue is cut by Fragment (inverse); distinct = hash of the case.",
+        "Roll-up variant: the cues' Lines are slices of shared backing arrays cut at different lengths (every list of <=2 cues on the grid, thorough <=3; one random case in four). Non-trivial = a merge happens together with >=2 texts or unordered input (specification), or some cue is cut by Fragment (inverse); distinct = hash of the case.",
         ["texts never contain the ' - ' line joiner, so equality of Item.String() is equality of text", "the inverse law relies on Fragment (C10)"],
         shards=(4, 16), cli=True, technique="property-based testing against an executable specification (connected components per text), a second display-equivalence oracle, and the metamorphic law Unfragment(Fragment(L,f)) = L; the sub-command of the CLI binary vs. the same step through the library (subprocess, byte-identical output or common failure)",
         text="Component-based specification compared position by position with pointer identity; independently the set of texts on screen at every boundary instant is compared before/after; the Fragment/Unfragment round trip is checked on generated lists satisfying its precondition by construction.",
@@ -101,7 +101,7 @@ PROPS = {
         "TestC03", "exploration",
         "read: case = (ground-truth TTML model, rendering); model = xml:lang (5 mapped + en-GB, fr-CA, de, none), title, copyright, ttp:frameRate in {absent,24,25,30,50,60}, ttp:tickRate in {absent,1,1000,90000,1e7}, 0..5 styles whose parent links form a forest (shared parents, children listed before parents), 0..3 regions with optional style, 0..6 cues with optional region/style/inline tts:* subset (24 attributes), 1..3 lines, 1..3 runs (span with optional style+attrs, or anonymous text), each boundary in a generated time-expression syntax (hh:mm:ss, hh:mm:ss.f{1,3}, hh:mm:ss:ff, N[.N]h|m|s|ms, Nf, Nt) whose exact value is computed in math/big; "
         "rendering = no indentation / 2 / 4 spaces / tab with children of <p> on their own lines or not, CRLF, <br/> between spans, inside a span, as first child, <br></br>, tts: / other / no prefix, xml:id vs id, XML declaration, named vs numeric character references, one or two divs. Plus an exhaustive pass over the time syntaxes (every frame number below the rate for 5 rates, every 1-3 digit fraction in 5 forms). "
-        "write: model converted to the public types, written with indent default/""/tab/2 spaces. Non-trivial = >=1 cue and >=1 feature label; distinct = hash of rendered bytes / model.",
+        "write: model converted to the public types, written with indent default/""/tab/2 spaces. One written list in four has identifiers that are not NCNames (leading digit, - or .). Non-trivial = >=1 cue and >=1 feature label; distinct = hash of rendered bytes / model.",
         ["N1, N3 of DESIGN.md; no white-space-only character data between two spans of a line, anonymous text does not start a source line, no raw newline inside character data; integer frame and tick counts in Nf / Nt",
          "tolerance for every boundary: |got - exact| < 1 ns",
          "the independent decoder is a raw encoding/xml token walk (allowed by the property) with its own time evaluator and br/span walker"],
@@ -113,7 +113,7 @@ PROPS = {
         "TestC04", "exploration",
         "read: case = (ground-truth SSA model, rendering); model = subset of the 15 script-info fields (values with ':' and ','), ';' comments, 0..4 styles over a drawn subset of the 23 attribute columns (booleans, 32-bit colours incl. alpha >= 0x80, 1/1000-grid floats, ints), 0..6 Dialogue events (cs-grid times, layer/marked, margins, effect, speaker, style reference, 1..3 lines of 1..3 runs with optional {...} override blocks, commas in text); "
         "rendering = permutation of the style columns (Name anywhere), permutation/subset of the event columns with Text last, section-name case / 'V4 Styles+', v4 vs v4+ layout, H:MM:SS.cc vs HH:MM:SS.cc, colours decimal / negative decimal / &H hex (6-8 digits, both cases), TertiaryColour vs OutlineColour, \\N vs \\n, EOL kinds, BOM, junk lines, unknown sections, comments inside sections, non-Dialogue events, '*'-prefixed style references, 'Key: v' vs 'Key:v'. "
-        "write: model with heterogeneous style attribute sets, v4 and v4+; checks library re-read, independent decoder and W(R(W(m))) == W(m). Non-trivial = >=1 event and >=1 feature label; distinct = hash of rendered bytes / model.",
+        "Events without a style may name a style the script does not define (Ghost, default, Defaults). write: model with heterogeneous style attribute sets, v4 and v4+; checks library re-read, independent decoder and W(R(W(m))) == W(m). Non-trivial = >=1 event and >=1 feature label; distinct = hash of rendered bytes / model.",
         ["run text contains no braces and no \\N / \\n sequences; no white space at line edges; every override block is followed by text; Name/Effect/Style cells contain no comma; Style rows carry no blanks after commas (as the specification writes them)",
          "N4: booleans compare by effective value (absent = false); N5: floats on the 1/1000 grid",
          "the independent Format-driven decoder treats an empty cell as 'absent' and any non-zero boolean as true"],
@@ -136,7 +136,7 @@ PROPS = {
     "C06": P(
         "TestC06", "exploration",
         "case = ground-truth page schedule x multiplexing x reader options; schedule = selected page M/TU (decimal digits, magazine 1..8), 1..5 instances with increasing PTS (some erase-only), 1..4 rows at distinct rows 1..24, row = colour/size codes before the start box, boxed segments that begin where a colour (0..7) or size (0x0c..0x0f) code changes state, text over G0 incl. the 13 national-option positions, national option C12-C14 per instance (7 Latin sub-sets), parity errors injected in text cells; "
-        "multiplexing = serial or parallel magazine mode, interleaved page of another magazine (parallel), same page number in another magazine, terminating page of the same magazine (or any magazine in serial mode) with its own rows, page with hexadecimal digits aliasing tens*10+units, 0xFF time-filling headers, stuffing and non-subtitle data units carrying look-alike packets, X/26 X/27 8/30 and other magazines' X/28 M/29, instance split over two PES packets, a second teletext PID with the same page, non-teletext streams first in the PMT, PAT/PMT repeated, PES before the first instance / after the last one moving the time origin; reader options page and PID given or detected. "
+        "header control bits C7-C10 and page sub-code vary per instance; multiplexing = serial or parallel magazine mode, interleaved page of another magazine (parallel), same page number in another magazine, terminating page of the same magazine (or any magazine in serial mode) with its own rows, page with hexadecimal digits aliasing tens*10+units, 0xFF time-filling headers, stuffing and non-subtitle data units carrying look-alike packets, X/26 X/27 8/30 and other magazines' X/28 M/29, instance split over two PES packets, a second teletext PID with the same page, non-teletext streams first in the PMT, PAT/PMT repeated, PES before the first instance / after the last one moving the time origin; reader options page and PID given or detected. "
         "Non-trivial = every stream with >=1 instance (labels record the classes); distinct = hash of the case.",
         ["encoder written from ETS 300 706 / EN 300 472 / ISO 13818-1 in the harness (Hamming 8/4 from the parity equations, odd parity, CRC-32/MPEG); national sub-sets typed from table 36, where the standard has arrows/bars (5 glyphs) the de-facto telxcc approximations are accepted too",
          "rows of the selected page directly follow its header (before any terminating header); no row number is repeated within an instance; every row has boxed text; X/28 and M/29 of the selected magazine are C08's subject",
@@ -158,7 +158,7 @@ PROPS = {
     "C16": P(
         "TestC16", "exploration",
         "case = (format in {srt, vtt, ttml, ssa, stl at 25 fps, stl at 30 fps}, batch of instants in ns; two instants per written cue). Enumerated: hour values {0,1,9,10,23,24,99} x unit-boundary pool, every second of the day +-1 ns, every frame boundary at 25/30 fps -1/+0/+1/+2 ns (one minute in quick, the day in thorough), the millisecond domain [0,24h) for the four text formats (every 997th ms in quick, every ms in thorough), k*10 ms +-1 ns (strided in quick); random batches at ns resolution up to 100 h (24 h for STL). "
-        "Every batch is non-trivial; distinct = hash of (format, first instant, last instant, length); the label 'instants' counts batches, notes give instant counts.",
+        "Back-to-back batches (each cue starts where the one before ends): fixed steps in every format and under every STL display standard code (0, 1, 2, none), and one random batch in four. Every batch is non-trivial; distinct = hash of (format, first instant, last instant, length); the label 'instants' counts batches, notes give instant counts.",
         ["public API only: timing fields are cut out of the writer's output with the harness's own field grammar (two-digit minutes/seconds < 60, fraction of exactly 3 resp. 2 digits, frame < rate) and the same bytes are read back",
          "expected rendering = floor of the instant to the format's unit in integer arithmetic; STL read-back within 1 ns"],
         shards=(6, 16), timeout=(900, 7200), technique="exhaustive / strided enumeration of the instant domain plus rapid random batches, oracle = integer floor arithmetic + grammar + read-back + second-write byte identity + monotonicity",
@@ -169,7 +169,7 @@ PROPS = {
         "TestC17", "exploration",
         "case = (format, document bytes, delivery schedule = list of chunk sizes incl. zero-length reads, data-together-with-EOF flag, seekable flag for the transport-stream reader, reader options). Documents: the repository's test inputs, documents rendered from the C01-C06 models, CRLF-converted and truncated variants; random cases also cut / bit-flip them (invalid documents). "
         "Schedules: every single split point of every document <= 4-6 KiB (exhaustive, every 7th also with data+EOF), one-byte reads, halves, zero-length reads, 150 KB CRLF documents split at 4096/8192/65536/131072 +-2 and read in chunks of 4090..4100 bytes, random chunk lists drawn from sizes around 1, 128, 188, 1024, 4096. "
-        "Oracle: canonical dump of (result | ERROR | PANIC) equals the dump under the all-at-once schedule. Non-trivial = the split falls inside a CR LF pair, a multi-byte rune, an XML document, a 128/1024-byte block or a 188-byte packet (splits), every one-byte/buffer-boundary/random schedule on a non-empty document; distinct = hash of (document, schedule).",
+        "Standard-library readers are deliveries too: bytes.Buffer, bufio.Reader at its default size and with 16-, 100- and 1000-byte buffers, bytes.Reader / strings.Reader, a seekable reader positioned after other content. Oracle: canonical dump of (result | ERROR | PANIC) equals the dump under the all-at-once schedule. Non-trivial = the split falls inside a CR LF pair, a multi-byte rune, an XML document, a 128/1024-byte block or a 188-byte packet (splits), every one-byte/buffer-boundary/random schedule on a non-empty document; distinct = hash of (document, schedule).",
         ["at most 3 consecutive zero-length reads (io.Reader discourages them; bufio gives up after 100)",
          "non-seekable transport-stream readers are compared with a non-seekable reference (the demultiplexer legitimately skips the packets it used for packet-size detection when it cannot rewind)"],
         shards=(6, 16), technique="differential testing over generated delivery schedules: harness-controlled io.Reader wrappers, exhaustive single-split enumeration, result compared with the reference schedule through a canonical pointer-following dump",
@@ -179,7 +179,7 @@ PROPS = {
     "C18": P(
         "TestC18", "fault_enumeration",
         "read faults: case = (format, document the reader accepts, fault offset k, read granularity); the stream delivers bytes [0,k) then fails with a non-EOF error (again after every rewind); enumerated for every k in 0..len (TTML: up to the end of the root element) of the repository's test inputs and of documents rendered from the C01-C06 models, all-at-once and (every 5th k) byte-by-byte. "
-        "write faults: case = (cue list obtained by reading a document, writer, fault offset k); the Write call crossing k fails with a partial count; enumerated for every k of the clean output plus one beyond (no fault: same bytes, nil). long lines: one line of 2^16, 2^16+1, 70000, 2^17, 2^18 (thorough: 2^19, 2^20) bytes in SRT/WebVTT/SSA/TTML: error, or all 3 cues. files: OpenFile of a missing file and Write into a missing directory for every extension. random: offsets / writers / granularities on fresh generated documents. "
+        "write faults: case = (cue list obtained by reading a document, writer, fault offset k); the Write call crossing k fails with a partial count; enumerated for every k of the clean output plus one beyond (no fault: same bytes, nil). SRT / WebVTT / SSA documents with lines beginning with 0x1A, 0x04, 0x0C are part of the enumerated documents. long lines: one line of 2^16, 2^16+1, 70000, 2^17, 2^18 (thorough: 2^19, 2^20) bytes in SRT/WebVTT/SSA/TTML: error, or all 3 cues. files: OpenFile of a missing file and Write into a missing directory for every extension. random: offsets / writers / granularities on fresh generated documents. "
         "Oracle: a non-nil error in every faulted run. Every faulted run is non-trivial; distinct = hash of (document, k, granularity / writer).",
         ["faults are injected only into documents the reader accepts without fault, so a nil error can only mean the fault was swallowed",
          "for TTML, offsets after the end of the root element are out of scope (the decoder legitimately stops reading there)"],
@@ -190,7 +190,7 @@ PROPS = {
     "C19": P(
         "TestC19", "exploration",
         "case = (heterogeneous cue list over the public types, permutation of the five writers); list = metadata mixing SSA / STL (dates present or not) / TTML / WebVTT fields, 0..6 styles with random subsets of the 23 SSA attributes, TTML attributes, WebVTT style lines and parent links, 0..3 regions, 1..5 cues with style / region references, cue settings, SSA event fields, STL justification / position, 1..3 lines of 1..3 runs carrying SRT flags, WebVTT tag stacks, TTML attributes, STL flags, SSA override blocks, inline timestamps. "
-        "Per case: 50 in-process writes per format (alternating the same list and a freshly built one), the five writers in the drawn order, two different clock instants; a batch of the cases is re-written in 4 (thorough 8) fresh processes and compared by hash. Non-trivial = >=2 styles AND (SSA styles with different attribute sets OR WebVTT style lines over several styles); distinct = hash of the case.",
+        "Per case: 50 in-process writes per format (alternating the same list and a freshly built one), the five writers in the drawn order, two different clock instants; a batch of the cases is re-written in 4 (thorough 8) fresh processes and compared by hash. Between two writes the process reads documents of every format (TTML under eleven xml:lang spellings, the repository samples); seven fixed lists in languages with and without a constant are written before anything else. Non-trivial = >=2 styles AND (SSA styles with different attribute sets OR WebVTT style lines over several styles); distinct = hash of the case.",
         ["a writer that returns an error must return the same error every time (compared as output)",
          "STL: bytes 224..236 of the GSI block (creation / revision date) may depend on the injectable clock when the metadata does not supply both dates; nothing else may"],
         shards=(4, 16), technique="metamorphic / differential property testing: repeated writes in-process and in fresh processes compared byte for byte, writer-order permutations, clock variation, canonical pointer-preserving dump of the input before/after every write",
@@ -212,7 +212,7 @@ PROPS = {
     "C20": P(
         "TestC20", "exploration",
         "case = (multiset of 4..64 independent operations built from 2..8 distinct ones, 2..32 goroutines, release order, 1..2 rounds); operation = one of the 6 readers on a document rendered from the C01-C06 models (teletext pages with different national options included), one of the 5 writers on a heterogeneous cue list, or a transformation (add, fragment, unfragment, order, merge, optimize, remove styling, force duration, linear correction) on its own list; every call builds its own inputs. The test binary is built with -race; shards run with GOMAXPROCS 2, 4, 16. "
-        "Oracle: every call's canonical result equals its sequential result, and the race detector stays silent (a report fails the process; the driver turns it into a violation with the detector's report as replay). Non-trivial = >=2 distinct kinds of operation in the multiset; distinct = hash of the case.",
+        "A fixed cold-start case reads STL files using one row under different numbers of displayable rows (line percentage known by construction), sequentially in both directions and concurrently. Oracle: every call's canonical result equals its sequential result, and the race detector stays silent (a report fails the process; the driver turns it into a violation with the detector's report as replay). Non-trivial = >=2 distinct kinds of operation in the multiset; distinct = hash of the case.",
         ["schedules are explored by repetition under the race detector, not enumerated: a race needing a window of a few instructions may survive many runs (the detector flags unsynchronised access even when results agree)",
          "the injectable clock astisub.Now is set before the goroutines start and not touched while they run"],
         shards=(4, 16), timeout=(1200, 7200), race=True, gomaxprocs=[2, 4, 16, 16],
@@ -224,7 +224,7 @@ PROPS = {
         "TestC07", "exploration",
         "case = (source format in {srt,ssa,ass,stl,ttml,vtt,ts}, source document rendered from the C01-C06 models with portable text and start <= end, random-case extensions, optional second document for merge, operation sequence of length 0..4 over {sync d, fragment f, unfragment, merge, optimize, order, linear correction (last)}, destination format in {srt,ssa,ass,stl,ttml,vtt}, entry point). "
         "Library: Open -> operations in memory -> Write -> Open, compared with the source-as-read run through the composed executable specifications of the operations and truncated to the destination resolution (ms / cs / frame at the destination rate plus programme start): same count, order, boundaries (1 unit of tolerance only after a linear correction) and text with white space removed. CLI: the same single step (convert or one sub-command) must produce byte-identical files (STL date bytes masked); chains of 2..4 sub-commands through intermediate files are compared step by step with the library doing the same. All 42 pairs are also run deterministically (matrix); unsupported extensions must give ErrInvalidExtension from Open and Write and a non-zero CLI exit; an empty result must give ErrNoSubtitlesToWrite. "
-        "Non-trivial = source and destination formats differ or >=1 operation; distinct = hash of the case.",
+        "Fixed SubRip / WebVTT documents whose text lines begin like a block keyword of another dialect go to every destination. Non-trivial = source and destination formats differ or >=1 operation; distinct = hash of the case.",
         ["the readers are vouched for by C01-C06: the expectation starts from the source as read",
          "cases whose text is not representable in the destination (predicate per destination: no '-->' / block keywords for SRT/WebVTT, no braces / \\N for SSA, Latin repertoire without '$' and <= 112 bytes for STL, XML-legal characters) or whose times become negative are outside the precondition: skipped and counted",
          "known finding: text written to STL under a teletext display standard (the default without STL metadata) is lost: for that class only the text comparison is skipped, count / order / boundaries are still checked"],
